@@ -449,7 +449,15 @@ svalue_t *safe_apply (const char *fun, object_t * ob, int num_arg, int where)
   error_context_t econ;
 
   if (!save_context (&econ))
-    return 0;
+    {
+      pop_n_elems (num_arg);
+      return 0;
+    }
+  /* The arguments belong to the call: when the function does not run to completion they must be
+   * removed exactly as a completed apply() removes them.  The callee may already have dropped
+   * surplus arguments (sp below the value saved above), so unwind to the slot below the arguments
+   * instead of to the slot of the last argument. */
+  econ.save_sp = sp - num_arg;
 
   if (!setjmp (econ.context))
     {
@@ -458,7 +466,10 @@ svalue_t *safe_apply (const char *fun, object_t * ob, int num_arg, int where)
           ret = apply (fun, ob, num_arg, where);
         }
       else
-        ret = 0;
+        {
+          pop_n_elems (num_arg);
+          ret = 0;
+        }
     }
   else
     {
